@@ -278,4 +278,17 @@ def wfCheck (f : File) : Bool :=
         | some t => t.uids.length == f.nodes.length
         | none => false)
 
+
+/-! ### copies into another workspace: identifier policy -/
+
+/-- the identifier a copied entity gets in the target workspace: its own when that is free there, otherwise
+    the fresh one supplied (`Workspace.copy_to_parent`: "assign the same uid if possible") -/
+def crossId (used : List Nat) (u fresh : Nat) : Nat := if used.contains u then fresh else u
+
+/-- identifiers of a copied list of entities (`srcs` paired with the fresh identifiers drawn for them), each one
+    seeing the identifiers taken by the entities copied before it -/
+def crossIds : List Nat → List (Nat × Nat) → List Nat
+  | _, [] => []
+  | used, (u, f) :: rest => crossId used u f :: crossIds (crossId used u f :: used) rest
+
 end GeoVerif.Ws
